@@ -40,3 +40,52 @@ package bcl
 //@   loop 1 assume slot_live: (opcode(vm.prog.code[vm.pc]) == opGETLOCAL ==> operand1(vm) < uint64(vm.tos)) && (opcode(vm.prog.code[vm.pc]) == opSETLOCAL ==> operand1(vm) + 1 < uint64(vm.tos))
 //@   loop 1 assume popn_within: opcode(vm.prog.code[vm.pc]) == opPOPN ==> operand1(vm) <= uint64(vm.tos)
 //@   loop 1 assume in_block: (opcode(vm.prog.code[vm.pc]) == opENDBLOCK || opcode(vm.prog.code[vm.pc]) == opSETFIELD || opcode(vm.prog.code[vm.pc]) == opGETFIELD) ==> vm.blockTos >= 1
+//
+// --- what one iteration does (relations between the loop head and the back edge) ---
+// stack depth and program counter follow the stack-effect / operand-format table (C10 link)
+//@   loop 1 step [C10] depth_by_table: instr != opPOPN ==> vm.tos == prev(vm.tos) + deltaOf(instr)
+//@   loop 1 step [C10] popn_depth: instr == opPOPN ==> vm.tos == prev(vm.tos) - int(prev(operand1(vm)))
+//@   loop 1 step [C10] instr_is_fetched: instr == prev(curop(vm))
+//@   loop 1 step [C10,C14] pc_plain: fmtOf(instr) == F0() ==> vm.pc == prev(vm.pc) + 1
+//@   loop 1 step [C10,C14] pc_u: fmtOf(instr) == FU() ==> vm.pc == prev(vm.pc) + 1 + uvneed(prev(vm.prog.code[vm.pc+1]))
+//@   loop 1 step [C10,C14] pc_uu: fmtOf(instr) == FUU() ==> vm.pc == prev(vm.pc + 1 + uvneed(vm.prog.code[vm.pc+1]) + uvneed(vm.prog.code[vm.pc+1+uvneed(vm.prog.code[vm.pc+1])]))
+//@   loop 1 step [C10,C14] pc_ub: fmtOf(instr) == FUB() ==> vm.pc == prev(vm.pc) + 2 + uvneed(prev(vm.prog.code[vm.pc+1]))
+//@   loop 1 step [C01,C10,C14] jump_forward: instr == opJUMP ==> vm.pc == prev(vm.pc + 3 + jumpdist(vm))
+//@   loop 1 step [C01,C10,C14] jfalse_keeps_operand: instr == opJFALSE ==> vm.pc == prev(vm.pc + 3 + (falsey(top(vm)) ? jumpdist(vm) : 0)) && top(vm) == prev(top(vm))
+//@   loop 1 step [C10] untouched_below: instr != opSETLOCAL ==> (forall i int :: 0 <= i && i < prev(vm.tos) - needOf(instr) && i < vm.tos ==> vm.stack[i] == prev(vm.stack[i]))
+// values (C01)
+//@   loop 1 step [C01,C14] const_pushes_constant: instr == opCONST ==> top(vm) == prev(vm.prog.constants[int(operand1(vm))])
+//@   loop 1 step [C01] literals: (instr == opZERO ==> top(vm) == VInt(0)) && (instr == opONE ==> top(vm) == VInt(1)) && (instr == opTRUE ==> top(vm) == VBool(true)) && (instr == opFALSE ==> top(vm) == VBool(false)) && (instr == opNIL ==> top(vm) == VNil())
+//@   loop 1 step [C01] binary_operator: is_arith(instr) ==> binop_ok(instr, prev(vm.stack[vm.tos-2]), prev(vm.stack[vm.tos-1])) && top(vm) == binop(instr, prev(vm.stack[vm.tos-2]), prev(vm.stack[vm.tos-1]))
+//@   loop 1 step [C01] negation: instr == opNEG ==> is_number(prev(top(vm))) && top(vm) == num_neg(prev(top(vm)))
+//@   loop 1 step [C01] unary_plus: instr == opUNPLUS ==> is_number(prev(top(vm))) && top(vm) == prev(top(vm))
+//@   loop 1 step [C01] not_is_falsey: instr == opNOT ==> top(vm) == VBool(falsey(prev(top(vm))))
+// variables (C02)
+//@   loop 1 step [C02] getlocal_reads_slot: instr == opGETLOCAL ==> top(vm) == prev(vm.stack[int(operand1(vm))])
+//@   loop 1 step [C02] setlocal_writes_slot_keeps_value: instr == opSETLOCAL ==> vm.stack[int(prev(operand1(vm)))] == prev(top(vm)) && top(vm) == prev(top(vm)) && (forall i int :: 0 <= i && i < vm.tos && i != int(prev(operand1(vm))) ==> vm.stack[i] == prev(vm.stack[i]))
+// blocks (C03)
+//@   loop 1 step [C03] only_block_ops_touch_blocks: (instr != opDEFBLOCK && instr != opENDBLOCK && instr != opSETFIELD) ==> vm.blockTos == prev(vm.blockTos) && vm.blockStack == prev(vm.blockStack) && vm.result == prev(vm.result)
+//@   loop 1 step [C03,C04] results_only_grow_at_endblock: instr != opENDBLOCK ==> len(vm.result) == prev(len(vm.result)) && (forall i int :: 0 <= i && i < len(vm.result) ==> vm.result[i] == prev(vm.result[i]))
+//@   loop 1 step [C04] binding_only_set_by_bind: instr != opBIND ==> vm.binding == prev(vm.binding)
+//@   loop 1 step [C03] defblock_pushes_fresh_block: instr == opDEFBLOCK ==> vm.blockTos == prev(vm.blockTos) + 1 && vm.blockStack[vm.blockTos-1].Type == as_str(prev(vm.prog.constants[int(operand1(vm))])) && vm.blockStack[vm.blockTos-1].Name == as_str(prev(vm.prog.constants[int(operand2(vm))])) && isnew(vm.blockStack[vm.blockTos-1].Fields) && (forall k string :: !has(vm.blockStack[vm.blockTos-1].Fields, k)) && (forall i int :: 0 <= i && i < prev(vm.blockTos) ==> vm.blockStack[i] == prev(vm.blockStack[i]))
+//@   loop 1 step [C03,C02] setfield_writes_innermost_block: instr == opSETFIELD ==> vm.blockTos == prev(vm.blockTos) && vm.blockStack == prev(vm.blockStack) && has(vm.blockStack[vm.blockTos-1].Fields, as_str(prev(vm.prog.constants[int(operand1(vm))]))) && vm.blockStack[vm.blockTos-1].Fields[as_str(prev(vm.prog.constants[int(operand1(vm))]))] == prev(top(vm)) && top(vm) == prev(top(vm))
+//@   loop 1 step [C03] endblock_nested_stores_child: instr == opENDBLOCK && prev(vm.blockTos) > 1 ==> vm.blockTos == prev(vm.blockTos) - 1 && !prev(has(vm.blockStack[vm.blockTos-2].Fields, childkey(vm.blockStack[vm.blockTos-1]))) && has(vm.blockStack[vm.blockTos-1].Fields, prev(childkey(vm.blockStack[vm.blockTos-1]))) && vm.blockStack[vm.blockTos-1].Fields[prev(childkey(vm.blockStack[vm.blockTos-1]))] == prev(VBlockOf(vm.blockStack[vm.blockTos-1])) && len(vm.result) == prev(len(vm.result))
+//@   loop 1 step [C03] endblock_toplevel_appends_result: instr == opENDBLOCK && prev(vm.blockTos) == 1 ==> vm.blockTos == 0 && len(vm.result) == prev(len(vm.result)) + 1 && vm.result[len(vm.result)-1] == prev(vm.blockStack[0]) && (forall i int :: 0 <= i && i < prev(len(vm.result)) ==> vm.result[i] == prev(vm.result[i]))
+// bind (C04)
+//@   loop 1 step [C04] bind_selects: instr == opBIND ==> bindSelected(vm, blocks, selector, target)
+//@   loop 1 step [C04] bind_filters_by_type_in_order: instr == opBIND ==> len(blocks) == cntType(elems(vm.result), len(vm.result), blockType) && len(blocks) >= 1 && (forall i int :: 0 <= i && i < len(vm.result) && vm.result[i].Type == blockType ==> blocks[cntType(elems(vm.result), i, blockType)] == vm.result[i])
+//@   loop 1 step [C04] bind_operands: instr == opBIND ==> blockType == as_str(prev(vm.prog.constants[int(operand1(vm))])) && int(selector) == int(bindOpt) % 16 && int(target) == int(bindOpt) / 16 * 16
+//
+//@   loop 2 invariant filter: 0 - 1 <= rangeindex && rangeindex < len(vm.result) && len(blocks) == cntType(elems(vm.result), rangeindex + 1, blockType) && (forall i int :: 0 <= i && i <= rangeindex && vm.result[i].Type == blockType ==> blocks[cntType(elems(vm.result), i, blockType)] == vm.result[i])
+//@   loop 2 invariant outer_state_kept: vm.tos == prev(vm.tos) && vm.blockTos == prev(vm.blockTos) && vm.blockStack == prev(vm.blockStack) && vm.result == prev(vm.result) && vm.prog == old(vm.prog) && !overflow && instr == opBIND && vm.prog.linePos != nil
+
+// closures of run with loops
+//@ func (*vm).run/blockGet
+//@   requires in_block_for_pseudo_fields: (name == "TYPE" || name == "NAME") ==> 1 <= vm.blockTos
+//@   requires 0 <= vm.blockTos && vm.blockTos <= 16
+//@   ensures [C03] type_pseudo_field: name == "TYPE" ==> ok && v == VStr(vm.blockStack[vm.blockTos-1].Type)
+//@   ensures [C03] name_pseudo_field: name == "NAME" ==> ok && v == VStr(vm.blockStack[vm.blockTos-1].Name)
+//@   ensures [C02,C03] innermost_block_having_the_field: (name != "TYPE" && name != "NAME" && ok) ==> (exists i int :: 0 <= i && i < vm.blockTos && has(vm.blockStack[i].Fields, name) && v == vm.blockStack[i].Fields[name] && (forall j int :: i < j && j < vm.blockTos ==> !has(vm.blockStack[j].Fields, name)))
+//@   ensures [C02,C03] unresolved_only_if_no_block_has_it: (name != "TYPE" && name != "NAME" && !ok) ==> (forall j int :: 0 <= j && j < vm.blockTos ==> !has(vm.blockStack[j].Fields, name))
+//@   loop 1 invariant 0 - 1 <= i && i < vm.blockTos && name != "TYPE" && name != "NAME" && (forall j int :: i < j && j < vm.blockTos ==> !has(vm.blockStack[j].Fields, name))
+//@   modifies nothing
